@@ -554,6 +554,52 @@ func c19Register(c *Ctx, r *Report, s subFns) {
 			"the registered value is "+src+", not the value of a range over the resolved map: a subscription resolved inside an inline fragment or fragment spread of the operation is never registered, or - looked up once per selection - one whose response key is selected twice is registered twice and then receives every event twice and is cleaned up twice")
 	}
 	r.floor("C19.REGISTER", "registrations (calls of the registration function)", n, 1)
+	// a subscription request that is answered with errors registers nobody: in the entry point the registration
+	// (or the call of the helper that registers) is dominated by len(errors) == 0 of the field resolver's result
+	ent := c.fn("(*Root).ResolveExecutable")
+	a := c.anchors()
+	if ent == nil || a.field == nil {
+		return
+	}
+	m := 0
+	for _, ci := range callsIn(ent) {
+		cal := ci.Common().StaticCallee()
+		if cal == nil {
+			continue
+		}
+		registers := cal == s.subscribe
+		if !registers && c.inPkg(cal) {
+			for _, site := range sites {
+				if site.Parent() == cal {
+					registers = true
+				}
+			}
+		}
+		if !registers {
+			continue
+		}
+		m++
+		ok := hasGuard(ci.Block(), func(g guard) bool {
+			x, op, k, isCmp := intCmp(g.cond)
+			if !isCmp {
+				return false
+			}
+			inner, isLen := isLenOf(x)
+			if !isLen {
+				return false
+			}
+			call, isCall := inner.(*ssa.Call)
+			if !isCall || call.Call.StaticCallee() != a.field {
+				return false
+			}
+			if !g.val {
+				op = negOp(op)
+			}
+			return (op == token.EQL && k == 0) || (op == token.LEQ && k == 0) || (op == token.LSS && k == 1)
+		})
+		r.check("C19.REGISTER", fmt.Sprintf("%s: registration #%d happens only when the subscription fields resolved without errors", fnName(ent), m), ci.Pos(), ok,
+			"subscriptions are registered although the request is answered with errors: the client was told the request failed, yet a subscriber is in the registry, receives later events and is counted")
+	}
 }
 
 // elemAt: v is a load of root.subscriptions[idx].
@@ -869,6 +915,7 @@ func checkC20(c *Ctx, r *Report) {
 	}
 	r.floor("C20.ONCE", "clean-up callback sites", nOnce, 2)
 	c20Shadow(c, r, s)
+	importRules(c, r, "C19", "C20.CLEANPAIR", "a clean-up callback is made exactly where its subscription leaves the registry, in the same critical section (C19.PAIR): a subscription that was cleaned up but is still in the registry is found again by the identity re-check of a concurrent publisher's failure phase and cleaned up a second time", "C19.PAIR")
 	importRules(c, r, "C19", "C20.REGONCE", "a subscription enters the registry once: the registered value is the value of a range over the resolved response map, one entry per response key (C19.REGISTER); registered once per selection instead, a subscriber whose key is selected twice is delivered every publish twice and cleaned up twice", "C19.REGISTER")
 	// TWOPHASE: the removal in AddEvent happens in a critical section that also contains the re-read used for identity
 	for i, rm := range findRemovals(s.addEvent) {
